@@ -162,6 +162,8 @@ def run(ck, facts, tier, only=None):
     # sensitivities are produced by the AD operator rules applied along the chain typing: their exactness is a necessary condition here too
     from rules import deps
     deps.include_ad(ck, facts, tier)
+    from rules import pywrap
+    pywrap.run_fx_wrappers(ck, facts)          # what a Python user calls is the wrapper: it must hand its arguments to the core method unchanged
     ck.not_decided += ["numeric value of sensitivities on concrete markets (they follow from C01/C02 applied along the chain typing of C09 R09.2)",
                        "that a rebuilt market returns the same rates as one built directly is by construction (it IS built directly from the latest quotes by try_new)"]
     ck.trusted += ["lib/cel.py (iterator/array model, explore())", "MIR place syntax for writes through self"]
